@@ -63,6 +63,7 @@ struct XSock {
     bool dying = false;            // wire-cut fault: this end's host "dies" - its own calls are not judged, what it had accepted still identifies the peer's receives
     std::vector<size_t> sent_lens; // lengths of the accepted messages, in order (messaging)
     bool is_tcp_based = false;
+    bool is_tls = false;           // tls / btls (utls reports the transport it ended up on)
 };
 
 struct XOpts {
